@@ -9,6 +9,9 @@ import (
 
 	sdk "github.com/cosmos/cosmos-sdk/types"
 	authtypes "github.com/cosmos/cosmos-sdk/x/auth/types"
+	"github.com/cosmos/cosmos-sdk/x/authz"
+	distrtypes "github.com/cosmos/cosmos-sdk/x/distribution/types"
+	minttypes "github.com/cosmos/cosmos-sdk/x/mint/types"
 	banktypes "github.com/cosmos/cosmos-sdk/x/bank/types"
 	"github.com/cosmos/cosmos-sdk/x/gov"
 	govv1 "github.com/cosmos/cosmos-sdk/x/gov/types/v1"
@@ -16,6 +19,7 @@ import (
 
 	"github.com/provenance-io/provenance/x/exchange"
 	markertypes "github.com/provenance-io/provenance/x/marker/types"
+	"github.com/provenance-io/provenance/x/quarantine"
 	"github.com/provenance-io/provenance/x/sanction"
 )
 
@@ -30,6 +34,12 @@ type c06Route struct {
 	// later settlement fills)
 	prep func(rc *c06RouteCtx, amt int64) error
 	run  func(rc *c06RouteCtx, amt int64) error
+	// flow: the route moves nothing out of the watched account's balance (funds come back to it,
+	// are released, or are paid out of another account): it must be accepted whatever the account's
+	// status, and the balance must not go down
+	flow bool
+	// markerAcct: the watched account is the marker account of [denom] itself (its escrowed supply)
+	markerAcct bool
 }
 
 type c06RouteCtx struct {
@@ -137,6 +147,86 @@ func c06Routes() []c06Route {
 			var bidID uint64
 			rc.e.app.ExchangeKeeper.IterateAddressOrders(rc.ctx, rc.helper, func(id uint64, _ byte) bool { bidID = id; return false })
 			return rc.deliver(&exchange.MsgMarketSettleRequest{Admin: rc.admin.String(), MarketId: rc.market, AskOrderIds: []uint64{rc.askID}, BidOrderIds: []uint64{bidID}})
+		}},
+		{name: "authz MsgExec of a MsgSend from the granter", prep: func(rc *c06RouteCtx, amt int64) error {
+			g, err := authz.NewMsgGrant(rc.acct, rc.helper, authz.NewGenericAuthorization(sdk.MsgTypeURL(&banktypes.MsgSend{})), nil)
+			if err != nil {
+				return err
+			}
+			return rc.deliver(g)
+		}, run: func(rc *c06RouteCtx, amt int64) error {
+			ex := authz.NewMsgExec(rc.helper, []sdk.Msg{banktypes.NewMsgSend(rc.acct, rc.other, coins(rc.denom, amt))})
+			return rc.deliver(&ex)
+		}},
+		{name: "marker withdraw out of the marker account", denom: "mkwcsix", markerAcct: true, run: func(rc *c06RouteCtx, amt int64) error {
+			return rc.deliver(markertypes.NewMsgWithdrawRequest(rc.admin, rc.other, rc.denom, coins(rc.denom, amt)))
+		}},
+		{name: "marker burn out of the marker account", denom: "mkbcsix", markerAcct: true, run: func(rc *c06RouteCtx, amt int64) error {
+			return rc.deliver(markertypes.NewMsgBurnRequest(rc.admin, sdk.NewInt64Coin(rc.denom, amt)))
+		}},
+		{name: "exchange payment of the source accepted by the target", prep: func(rc *c06RouteCtx, amt int64) error {
+			return rc.deliver(&exchange.MsgCreatePaymentRequest{Payment: exchange.Payment{Source: rc.acct.String(), SourceAmount: coins(rc.denom, amt), Target: rc.helper.String(), ExternalId: "c06"}})
+		}, run: func(rc *c06RouteCtx, amt int64) error {
+			return rc.deliver(&exchange.MsgAcceptPaymentRequest{Payment: exchange.Payment{Source: rc.acct.String(), SourceAmount: coins(rc.denom, amt), Target: rc.helper.String(), ExternalId: "c06"}})
+		}},
+		{name: "exchange payment accepted by the target who pays the target amount", prep: func(rc *c06RouteCtx, amt int64) error {
+			return rc.deliver(&exchange.MsgCreatePaymentRequest{Payment: exchange.Payment{Source: rc.helper.String(), SourceAmount: coins("pricecsix", 5), Target: rc.acct.String(), TargetAmount: coins(rc.denom, amt), ExternalId: "c06"}})
+		}, run: func(rc *c06RouteCtx, amt int64) error {
+			return rc.deliver(&exchange.MsgAcceptPaymentRequest{Payment: exchange.Payment{Source: rc.helper.String(), SourceAmount: coins("pricecsix", 5), Target: rc.acct.String(), TargetAmount: coins(rc.denom, amt), ExternalId: "c06"}})
+		}},
+		{name: "exchange payment of the source rejected by the target (hold released)", flow: true, prep: func(rc *c06RouteCtx, amt int64) error {
+			return rc.deliver(&exchange.MsgCreatePaymentRequest{Payment: exchange.Payment{Source: rc.acct.String(), SourceAmount: coins(rc.denom, amt), Target: rc.helper.String(), ExternalId: "c06"}})
+		}, run: func(rc *c06RouteCtx, amt int64) error {
+			return rc.deliver(&exchange.MsgRejectPaymentRequest{Target: rc.helper.String(), Source: rc.acct.String(), ExternalId: "c06"})
+		}},
+		{name: "MsgUndelegate", flow: true, prep: func(rc *c06RouteCtx, amt int64) error {
+			return rc.deliver(stakingtypes.NewMsgDelegate(rc.acct.String(), rc.e.valAddr, sdk.NewInt64Coin(rc.denom, amt)))
+		}, run: func(rc *c06RouteCtx, amt int64) error {
+			return rc.deliver(stakingtypes.NewMsgUndelegate(rc.acct.String(), rc.e.valAddr, sdk.NewInt64Coin(rc.denom, amt)))
+		}},
+		{name: "MsgWithdrawDelegatorReward", flow: true, prep: func(rc *c06RouteCtx, amt int64) error {
+			if err := rc.deliver(stakingtypes.NewMsgDelegate(rc.acct.String(), rc.e.valAddr, sdk.NewInt64Coin(rc.denom, amt))); err != nil {
+				return err
+			}
+			// a later block in which the validator earns rewards
+			rc.ctx = rc.ctx.WithBlockHeight(rc.ctx.BlockHeight() + 1)
+			rew := coins(rc.denom, 1_000_000_000)
+			if err := rc.e.app.BankKeeper.MintCoins(rc.ctx, minttypes.ModuleName, rew); err != nil {
+				return err
+			}
+			if err := rc.e.app.BankKeeper.SendCoinsFromModuleToModule(rc.ctx, minttypes.ModuleName, distrtypes.ModuleName, rew); err != nil {
+				return err
+			}
+			vb, err := sdk.ValAddressFromBech32(rc.e.valAddr)
+			if err != nil {
+				return err
+			}
+			val, err := rc.e.app.StakingKeeper.GetValidator(rc.ctx, vb)
+			if err != nil {
+				return err
+			}
+			return rc.e.app.DistrKeeper.AllocateTokensToValidator(rc.ctx, val, sdk.NewDecCoinsFromCoins(rew...))
+		}, run: func(rc *c06RouteCtx, amt int64) error {
+			rc.ctx = rc.ctx.WithBlockHeight(rc.ctx.BlockHeight() + 1)
+			return rc.deliver(distrtypes.NewMsgWithdrawDelegatorReward(rc.acct.String(), rc.e.valAddr))
+		}},
+		{name: "quarantine: the receiver accepts funds this account sent before", flow: true, prep: func(rc *c06RouteCtx, amt int64) error {
+			if err := rc.deliver(quarantine.NewMsgOptIn(rc.other)); err != nil {
+				return err
+			}
+			return rc.deliver(banktypes.NewMsgSend(rc.acct, rc.other, coins(rc.denom, amt)))
+		}, run: func(rc *c06RouteCtx, amt int64) error {
+			if rec := rc.e.app.QuarantineKeeper.GetQuarantineRecord(rc.ctx, rc.other, rc.acct); rec == nil || !rec.Coins.IsAllGTE(coins(rc.denom, amt)) {
+				return fmt.Errorf("no quarantine record")
+			}
+			b0 := rc.e.app.BankKeeper.GetBalance(rc.ctx, rc.other, rc.denom).Amount.Int64()
+			if err := rc.deliver(quarantine.NewMsgAccept(rc.other, []string{rc.acct.String()}, false)); err != nil {
+				return err
+			}
+			if got := rc.e.app.BankKeeper.GetBalance(rc.ctx, rc.other, rc.denom).Amount.Int64(); got != b0+amt {
+				return fmt.Errorf("accepted funds not received: %d -> %d", b0, got)
+			}
+			return nil
 		}},
 	}
 }
@@ -299,6 +389,15 @@ func c06RouteMatrix(e *c06Env, r *rand.Rand, w *CaseWriter) {
 							w.Count("route_setup_failed:withdraw")
 							continue
 						}
+					case "mkwcsix", "mkbcsix":
+						// the watched account is the marker account itself, holding its whole supply
+						grants := []markertypes.AccessGrant{
+							*markertypes.NewAccessGrant(admin, markertypes.AccessList{markertypes.Access_Withdraw, markertypes.Access_Admin, markertypes.Access_Burn, markertypes.Access_Mint})}
+						if err := rc.mkMarker(rc.denom, before, false, grants...); err != nil {
+							w.Count("route_setup_failed:marker")
+							continue
+						}
+						rc.acct = markertypes.MustGetMarkerAddress(rc.denom)
 					default:
 						fund(e.t, app, ctx, rc.acct, sdk.NewCoins(sdk.NewInt64Coin(rc.denom, before)))
 						if rt.name == "one of two inputs (InputOutputCoinsProv)" {
@@ -340,6 +439,9 @@ func c06RouteMatrix(e *c06Env, r *rand.Rand, w *CaseWriter) {
 					}
 					balAfter := app.BankKeeper.GetBalance(rc.ctx, rc.acct, rc.denom).Amount.Int64()
 					term := fmt.Sprintf("CRoute %s %s %s %s %s %s %s", coqStr(rt.name), coqStr(how.name), coqBool(sanctioned), zI64(balBefore), zI64(amt), coqBool(err == nil), zI64(balAfter))
+					if rt.flow {
+						term = fmt.Sprintf("CFlow %s %s %s %s %s %s", coqStr(rt.name), coqStr(how.name), coqBool(sanctioned), zI64(balBefore), coqBool(err == nil), zI64(balAfter))
+					}
 					w.Add(term, map[string]any{"kind": "route", "route": rt.name, "status_setup": how.name, "sanctioned": sanctioned, "balance_before": balBefore,
 						"amount": amt, "accepted": err == nil, "balance_after": balAfter, "error": fmt.Sprint(err)})
 					w.Count("routes")
